@@ -1467,11 +1467,14 @@ static void *janet_chanat_unmarshal(JanetMarshalContext *ctx) {
     } else {
         abst = janet_unmarshal_abstract(ctx, sizeof(JanetChannel));
     }
+    /* The abstract is on the heap from here on: give it a valid empty state before any read that can fail,
+     * so that the collector never marks or finalizes an uninitialized channel. */
+    janet_chan_init(abst, 0, 0);
     uint8_t is_closed = janet_unmarshal_byte(ctx);
     int32_t limit = janet_unmarshal_int(ctx);
     int32_t count = janet_unmarshal_int(ctx);
     if (count < 0) janet_panic("invalid negative channel count");
-    janet_chan_init(abst, limit, 0);
+    abst->limit = limit;
     abst->closed = !!is_closed;
     for (int32_t i = 0; i < count; i++) {
         Janet item = janet_unmarshal_janet(ctx);
